@@ -68,7 +68,11 @@ func observe(doc *docSpec) (map[string]*obox, error) {
 			return
 		}
 		cur := owner
-		if id := idOf(f); id != "" {
+		id := idOf(f)
+		if id == "" && f.Element != nil && f.Element.Data == "html" {
+			id = "html" // the root element
+		}
+		if id != "" {
 			if o, dup := out[id]; dup {
 				// anonymous boxes inherit the element of their parent
 				o.nElem++
@@ -110,7 +114,7 @@ func Show(doc *docSpec) string {
 	if err != nil {
 		fmt.Fprintf(&sb, "error: %v\n", err)
 	}
-	for _, r := range ref.boxes {
+	for _, r := range append([]*rbox{ref.root}, ref.boxes...) {
 		fmt.Fprintf(&sb, "%-5s ref: x=%s y=%s w=%s h=%s ml=%s mr=%s through=%v obs=%v line=%s\n", r.spec.id, num(r.x), num(r.y), num(r.bw), num(r.bh), num(r.ml), num(r.mr), r.through, r.observable, num(r.lineY))
 		if o := obs[r.spec.id]; o != nil {
 			fmt.Fprintf(&sb, "      got: x=%s y=%s w=%s h=%s ml=%s mr=%s line=%v %s\n", num(o.x), num(o.y), num(o.bw), num(o.bh), num(o.ml), num(o.mr), o.hasLine, num(o.lineY))
